@@ -49,8 +49,9 @@ T = {
          "recognised by is_eof; encoding + arbitrary suffix decodes to the same packet (Properties/C07.v). Correspondence: all cut "
          "positions of the pool's encodings, random suffixes.", "section 9, C07", "Coq proof (stability: a successful run fails with the tail's error on every strict prefix) + correspondence"),
  'C08': ("Theorems for every finite sequence of valid packets: each front-end's packet-by-packet loop returns exactly the sequence "
-         "with sizes = encoding lengths and then clean end of input (Properties/C08.v). Correspondence: random sequences of 1..40 "
-         "packets under chunked delivery.", "section 9, C08", "Coq proof (induction over the packet list from C01 + stability) + correspondence"),
+         "with sizes = encoding lengths and then clean end of input; the poll loop on one scripted transport does so under EVERY "
+         "delivery schedule of the stream; read_exact's chunk-independence derived from its loop (Properties/C08.v). "
+         "Correspondence: random sequences of 1..40 packets under chunked delivery.", "section 9, C08", "Coq proof (induction over the packet list from C01 + stability) + correspondence"),
  'C09': ("Theorems: packet encoding = control byte + minimal length + streamed body chunks for all 29 types incl. the fixed-array "
          "fast paths; VarBytes exposes its bytes; encode_async under any benign sink script (partial writes, Pending) and the "
          "streaming encoder into any io::Write emit exactly those bytes (Properties/C09.v). Determinism of repeated calls is by "
@@ -67,7 +68,8 @@ T = {
          "Coq proof (measured post-conditions: canonical length <= bytes consumed) + correspondence"),
  'C12': ("Theorems: every packet returned by any decoder of either family from any byte string satisfies types_inv (UTF-8 text, "
          "valid topic names, valid filters with the correct cached separator, non-zero pids, table-member codes, var-ints < 2^28, "
-         "flagged payload UTF-8) (Properties/C12.v; accessor safety via C17). Correspondence: the harness walks every field of "
+         "flagged payload UTF-8), and every decoded filter's shared-subscription accessors return the unique split without "
+         "panic (Properties/C12.v). Correspondence: the harness walks every field of "
          "every decoded packet.", "section 9, C12", "Coq proof (post-condition calculus over the reader monad) + correspondence"),
  'C13': ("Theorems for every valid CONNECT of v3.1/v3.1.1/v5.0: the other family's three front-ends return UnexpectedProtocol(version) "
          "(poll: every schedule); async/blocking do so even if the transport fails right after the level byte; resuming with the "
@@ -96,10 +98,12 @@ T = {
  'C19': ("Theorems for all p in 1..65535, u in 0..65535: closed form ((p-1+-u) mod 65535)+1, never 0, no panic/wrap in either "
          "profile, sub undoes add, assign operators agree, try_from fails exactly for 0 (Properties/C19.v). Correspondence: thorough "
          "= all 65535x65536 pairs x 4 operators.", "section 9, C19", "Coq proof (lia) + correspondence"),
- 'C20': ("Theorems: every catalogue row at component level (exact error variant with payload, for all inputs of the row's shape) and "
-         "whole-frame classification for the rows listed in Properties/C20.v; front-ends agree except the documented "
-         "InvalidRemainingLength / incomplete exception. Rows not lifted to whole frames are covered by the correspondence run "
-         "against the catalogue's documented expectation (a test, named in the evidence).", "section 9, C20",
+ 'C20': ("Theorems (98, Properties/C20.v generated from Proofs/Faults*.v): every catalogue row at component level (exact error "
+         "variant with payload for all inputs of the row's shape; Header::new_with characterised totally) AND at whole-frame "
+         "level for every valid packet of the row's shape with arbitrary trailing bytes: async, blocking and poll (every "
+         "schedule) return that same error, except the documented InvalidRemainingLength / incomplete exception, which is "
+         "proved too. Correspondence: the fault catalogue (gen/frames.py, expectation written from the documentation) at "
+         "every applicable position, plus the complete property x packet-type carrier matrix.", "section 9, C20",
          "Coq proof (per-row classification lemmas) + fault-catalogue correspondence"),
 }
 
